@@ -101,6 +101,14 @@ structure Res where
 
 def St.ofWErr : WErr → St
   | .einval => .einval | .einconceivable => .einconceivable | .efail => .efail | .esyntax => .esyntax | .fault => .fault
+  | .einvalLetters _ => .einval
+
+/-- what the caller's SS buffer holds after a failed `esl_msa_RemoveBrokenBasepairsFromSS`: untouched, except when
+    `esl_ct2wuss` gave up half way ("not enough letters") -/
+def ssAfterError (e : WErr) (s : Bytes) : Bytes :=
+  match e with
+  | .einvalLetters p => p
+  | _ => s
 /-- which `WErr`s come out of `ESL_EXCEPTION` (all of `esl_ct2wuss`'s), as opposed to a plain error return -/
 def WErr.isExc : WErr → Bool
   | .esyntax => false | .fault => false | _ => true
@@ -166,14 +174,14 @@ def rbbSeqs (useme : List Bool) : List (Option Bytes) → List (Option Bytes) ×
   | none :: rest => let (r, e) := rbbSeqs useme rest; (none :: r, e)
   | some s :: rest =>
     match removeBrokenFromSS s useme with
-    | .error e => (some s :: rest, some e)
+    | .error e => (some (ssAfterError e s) :: rest, some e)
     | .ok s' => let (r, e) := rbbSeqs useme rest; (some s' :: r, e)
 
 def removeBrokenBasepairs (m : Msa) (useme : List Bool) : Res :=
   match (match m.ss_cons with
          | none => (Except.ok none : Except WErr (Option Bytes))
          | some s => (removeBrokenFromSS s useme).map some) with
-  | .error e => { msa := m, st := St.ofWErr e, exc := e.isExc }
+  | .error e => { msa := { m with ss_cons := m.ss_cons.map (ssAfterError e) }, st := St.ofWErr e, exc := e.isExc }
   | .ok sc =>
     let (ss, e) := rbbSeqs useme m.ss
     let m' := { m with ss_cons := sc, ss := ss }
